@@ -34,10 +34,14 @@ def ensure_libs(features=("std", "auto-collect", "finalization", "derive", "weak
             env["RUSTFLAGS"] = "-Awarnings"
             env.pop("RUSTC_WORKSPACE_WRAPPER", None)
             # metadata only: the probes are type-checked (`--emit=metadata`), never linked or run
+            from . import depcache
+            flavor = "wit-" + ",".join(sorted(features))
+            depcache.seed(os.path.join(tmp, "t"), repo, flavor)
             r = subprocess.run(["cargo", "+nightly", "check", "--offline", "--lib", "--no-default-features", "-F", ",".join(features)],
                                cwd=repo, env=env, stdout=subprocess.PIPE, stderr=subprocess.STDOUT, text=True)
             if r.returncode != 0:
                 return None, r.stdout[-3000:]
+            depcache.save(os.path.join(tmp, "t"), repo, flavor)
             deps = os.path.join(tmp, "t", "debug", "deps")
             shutil.rmtree(d, ignore_errors=True)
             os.makedirs(d)
